@@ -152,7 +152,14 @@ class New:
         if r < 0.3:
             op["content"] = g.text()
         if g.rng.random() < g.cfg["p_explicit_id"]:
-            op["id"] = "x%d" % g.fresh()
+            n = g.fresh()
+            if g.rng.random() < 0.5:
+                op["id"] = "x%d" % n
+            else:
+                # distinct strings that spell one uuid in three ways, or look like numbers
+                base = "abcdef00-0000-4000-8000-%012x" % (n // 3)
+                op["id"] = [base, base.upper(), base.replace("-", "")][n % 3] if g.rng.random() < 0.7 else \
+                    ["%d" % n, "%d.0" % n, "0%d" % n][n % 3]
         return op
 
     def resolve(self, V, op):
